@@ -100,6 +100,7 @@ struct Session {
     std::map<long, Ent> second;              // a second handle of every entity created in the session (looked up through its parent
                                              // right after the creation): calls alternate between the two handles of an entity
     unsigned long tick = 0;
+    unsigned long closes = 0; bool twoFiles = false;
     std::map<std::string, long> eidOfId;     // UUID -> model eid (bound at creation, survives reopen)
     std::map<long, std::string> idOf;
     std::map<long, long> createdAt;
@@ -925,7 +926,17 @@ void closeSession(Session &s) {
     std::vector<Ent> many;
     if (s.open) { json pre = observe(s); for (auto &x : pre["issues"]) { std::string m = x.get<std::string>(); if (m.rfind("before close: ", 0) != 0 && s.carried.size() < 10) s.carried.push_back("before close: " + m); }
                   if (!getenv("VERIF_NO_AUX")) aux = collectAux(s); if (!getenv("VERIF_NO_MANY") && s.K == 0 && s.fresh.size() <= 8) many = collectMany(s); }     // (not on lines with ballast: see DESIGN section 8, "many handles + ballast")
+    // on every third line (by content hash): a SECOND File object on the same path is open in the process while
+    // the session's File is closed; it is closed right afterwards (or right before).  Once both have returned from close() the file
+    // must be released like after any close (descriptor check of the observer, reopen in every mode by the following steps).
+    s.closes++;
+    bool two = s.twoFiles && !getenv("VERIF_NO_TWOFILES");
+    nix::File other;
+    if (two) { try { other = nix::File::open(s.path, nix::FileMode::ReadOnly); (void) other.blockCount(); } catch (const std::exception &ex) { s.carried.push_back(std::string("a second File object on the path of the open session could not be opened read-only: ") + ex.what()); two = false; } }
+    if (two && s.closes % 2 == 0) { try { other.close(); } catch (const std::exception &ex) { s.carried.push_back(std::string("close() of the second File object threw: ") + ex.what()); } }
     s.f.close(); s.open = false;
+    if (two && s.closes % 2 != 0) { try { other.close(); } catch (const std::exception &ex) { s.carried.push_back(std::string("close() of the second File object threw: ") + ex.what()); } }
+    other = nix::File();
     size_t alive = 0;
     if (!getenv("VERIF_NO_POKE")) for (auto &e : many) {
         bool g = false, m = false;
@@ -1094,6 +1105,8 @@ json handleInner(Ctx &c, const json &rec) {
     // side effect can make a fault heal under observation, so half of the histories run unobserved until the judged step
     bool touchThisLine;
     { std::string key = rec["pre"].dump() + rec["step"].dump(); unsigned long h = 1469598103934665603UL; for (unsigned char ch : key) { h ^= ch; h *= 1099511628211UL; } touchThisLine = (h / 6) % 2 == 0; }
+    { std::string key = rec["pre"].dump() + rec["step"].dump(); unsigned long h = 1469598103934665603UL; for (unsigned char ch : key) { h ^= ch; h *= 1099511628211UL; }
+      s.twoFiles = c.opts.value("two_files", false) && (h / 12) % 3 == 0; }
     Ent fileEnt; fileEnt.kind = "file";
     // Init: an open read-write session on a new, empty file
     s.f = nix::File::open(s.path, nix::FileMode::Overwrite);
